@@ -2,7 +2,7 @@
     script of load calls; observed: final deep view, environment level, the
     suffixes the system/user/project levels were read from -- or the exception
     class of the first call that raised. *)
-From InvokeVerif Require Export Model.ConfigModel Spec.C03Spec.
+From InvokeVerif Require Export Model.ConfigModel Spec.C03Spec Spec.C03ModSpec.
 
 Definition obs3 := result (tree * tree * list (option string)).
 
@@ -96,9 +96,24 @@ Definition ops_run (c : case) : list op :=
   | Ok _ => c_ops c
   end.
 
-Definition spec (c : case) : bool :=
+Definition spec_loads (c : case) : bool :=
   spec_ok (c_fs c) (c_init c) (ops_run c) "INVOKE_" (c_obs c) &&
   spec_mids (c_fs c) (c_init c) [] (c_ops c) (c_mids c).
+
+(** The edits that follow the load calls (Spec/C03ModSpec.v): after each of them
+    the view is judged against the ten levels -- the modifications level being
+    what the history of edits defines -- and the recorded deletions. *)
+Definition final_err (o : obs3) : option err :=
+  match o with Err e => Some e | Ok _ => None end.
+
+Definition spec_mods (c : case) : bool :=
+  spec_mods_ok (c_fs c) (c_init c) "INVOKE_" (c_ops c) (c_mids c) (final_err (c_obs c)).
+
+Definition spec (c : case) : bool := spec_loads c && spec_mods c.
+
+(** Statistics: the case has edits, all of them judged. *)
+Definition with_mods (c : case) : bool :=
+  mods_in_scope (c_fs c) (c_init c) (c_ops c) (c_mids c).
 
 (** Inside the quantifier of the property (type-consistent levels, a load script). *)
 Definition in_scope (c : case) : bool :=
